@@ -134,7 +134,7 @@ theorem TellInv.removeDown (id : Id) : Pres (TellInv E τ) (modS fun s => { s wi
     · exact ha m (hp.mem_iff.1 (List.mem_cons_of_mem _ hm)))
 
 theorem TellInv.base : Base E (TellInv E τ) (okTold τ) where
-  okDown0 := fun _ => Nat.zero_le _
+  ownDown := fun _ _ => Nat.zero_le _
   membersApply := fun u hu => ⟨fun c hc => by
     obtain ⟨ha, hb, hcc⟩ := hc
     unfold Foca.membersApply
@@ -228,7 +228,7 @@ theorem TellInv.base : Base E (TellInv E τ) (okTold τ) where
   modCtl := fun f h => Pres.modS_of (fun s hs =>
     TellInv.of_same E τ (h s).1 (h s).2.2.1 (h s).2.2.2.2.2.2.2.2 hs)
   setHst := fun _ => Pres.modS_of (fun s hs => TellInv.of_same E τ (s := s) rfl rfl (Or.inl rfl) hs)
-  addCustom := fun _ _ _ => Pres.modS_of (fun s hs => TellInv.of_same E τ (s := s) rfl rfl (Or.inl rfl) hs)
+  addCustom := fun _ _ _ _ => Pres.modS_of (fun s hs => TellInv.of_same E τ (s := s) rfl rfl (Or.inl rfl) hs)
 
 theorem TellInv.modId (f : State → State) (h : IdCtl f) : Pres (TellInv E τ) (modS f) :=
   Pres.modS_of (fun s hs => TellInv.of_same E τ (h s).1 (h s).2.2.1 (h s).2.2.2.2.2 hs)
@@ -236,6 +236,7 @@ theorem TellInv.modId (f : State → State) (h : IdCtl f) : Pres (TellInv E τ) 
 theorem TellInv.full : Full E (TellInv E τ) (okTold τ) (okTold τ) (fun h => h.srcInc ≤ τ h.src) where
   toBase := TellInv.base E τ
   handleSelfUpdate := (TellInv.base E τ).handleSelfUpdate_of (TellInv.modId E τ)
+  inputDown := fun _ _ => Nat.zero_le _
   senderOk := fun _ _ hh _ _ => hh
   applyOk := fun _ _ hu _ _ _ => hu
   failedOk := fun s0 m hp hm => by
